@@ -442,9 +442,11 @@ def copyOp (dst src : String) (global : Bool) : BM String := do
   modify fun s => { s with schReq := true }
   let s ← get
   callFunc "_sch" [] [varName s dst global, src]
+  let h ← nextHelperVar
   callFunc "_slg" [] [src]
   let s ← get
-  pure (varEvalString s "_len" true)
+  varAssignment h (varEvalString s "_len" true) false
+  varEvaluation h false
 
 def existsOp (path : String) : BM String := do
   let h ← nextHelperVar
